@@ -619,6 +619,86 @@ func c11Body(w *W) {
 	for k := 65525; k <= 65545; k++ {
 		sweep(fmt.Sprintf("tag-flush-edge-%d", k), "["+strings.Repeat("null,", k)+"1]")
 	}
+	// varint width boundaries of the section sizes written into the header (7-bit groups:
+	// 127/128, 16383/16384): string-table bytes, tag count, value bytes; all four modes
+	w.Note("varint-width sweeps: one string of every length 90..135 and 16360..16390 (string table), arrays of k nulls for k = 118..135 and 16374..16390 (tags), arrays of k integers for k = 12..20 and 2040..2056 (values), each alone in a document, serialized in all 4 modes and read back")
+	sweep4 := func(name, text string) {
+		w.res.States++
+		if !w.Mine() || w.Expired() {
+			return
+		}
+		pj, docs := mustParse(w, text, false, Cfg{hasAVX512, true})
+		t := &serTape{name: name, pj: pj, docs: docs, exact: renderDocs(docs, renderExact), big: true}
+		ts2 := append(append([]*serTape(nil), ts...), t)
+		for m := 0; m < 4; m++ {
+			h := []serOp{{Kind: 1, A: m}, {Kind: 0, A: len(ts2) - 1}, {Kind: 2, A: -1, Dst: 0}}
+			w.res.Transitions += 3
+			w.res.Evaluations++
+			w.res.Validated++
+			if what, fp := runSerHistory(ts2, blobs, h, nil); what != "" {
+				w.Violate(Violation{Harness: "C11-varint-width", Fingerprint: "C11/varint-width/" + fp, What: name + ": " + what, Case: []byte(name), CaseText: name + " mode " + modeNames[m], Config: "asm"})
+				return
+			}
+		}
+	}
+	noise := func(n int) string {
+		// poorly compressible printable bytes
+		b := make([]byte, n)
+		x := uint32(2463534242)
+		for i := range b {
+			x ^= x << 13
+			x ^= x >> 17
+			x ^= x << 5
+			b[i] = "abcdefghijklmnopqrstuvwxyzABCDEFGHIJKLMNOPQRSTUVWXYZ0123456789-_"[x%64]
+		}
+		return string(b)
+	}
+	for _, r := range [][2]int{{90, 135}, {16360, 16390}} {
+		for k := r[0]; k <= r[1]; k++ {
+			sweep4(fmt.Sprintf("string-table-%d-bytes", k), `["`+noise(k)+`"]`)
+		}
+	}
+	for _, r := range [][2]int{{118, 135}, {16374, 16390}} {
+		for k := r[0]; k <= r[1]; k++ {
+			sweep4(fmt.Sprintf("tags-%d-nulls", k), "["+strings.Repeat("null,", k-1)+"null]")
+		}
+	}
+	for _, r := range [][2]int{{12, 20}, {2040, 2056}} {
+		for k := r[0]; k <= r[1]; k++ {
+			var sb strings.Builder
+			sb.WriteByte('[')
+			for i := 0; i < k; i++ {
+				if i > 0 {
+					sb.WriteByte(',')
+				}
+				fmt.Fprintf(&sb, "%d", int64(i)*2654435761%1000003-500000)
+			}
+			sb.WriteByte(']')
+			sweep4(fmt.Sprintf("values-%d-integers", k), sb.String())
+		}
+	}
+	// big then small on one Serializer: Deserialize(big); Deserialize(small); Serialize(larger)
+	w.Note("scratch buffers sized by a big stream: Serialize(big); Deserialize; Serialize(tiny); Deserialize; Serialize(small tape s); Deserialize for every big tape, every small tape s and modes none/default")
+	for ti, t := range ts {
+		if !t.big {
+			continue
+		}
+		for _, si := range small {
+			for _, m := range []int{0, 2} {
+				w.res.States++
+				if !w.Mine() || w.Expired() {
+					continue
+				}
+				h := []serOp{{Kind: 1, A: m}, {Kind: 0, A: ti}, {Kind: 2, A: -1, Dst: 0}, {Kind: 0, A: small[0]}, {Kind: 2, A: -1, Dst: 1}, {Kind: 0, A: si}, {Kind: 2, A: -1, Dst: 1}}
+				w.res.Transitions += int64(len(h))
+				w.res.Evaluations++
+				w.res.Validated++
+				if what, fp := runSerHistory(ts, blobs, h, nil); what != "" {
+					report(h, what, fp)
+				}
+			}
+		}
+	}
 	w.Sample("history sample: CompressMode(fast); Serialize(deleted); Deserialize(blob[numbers/best], reused dst)")
 
 	// noasm: write all blobs with their expected exact rendering; run.sh builds a reader
